@@ -54,7 +54,7 @@ Definition escape (s : list N) : list N := escape_aux s true.
 (* String RemoveEscapeChars(const String &) *)
 Fixpoint unescape_aux (s : list N) (lastWasEscape : bool) : list N :=
   match s with
-  | [] => []
+  | [] => if lastWasEscape && (c_une_keeps_trailing =? 1) then [ch_bsl] else []
   | c :: t =>
       let isEscape := c =? ch_bsl in
       (if lastWasEscape || negb isEscape then [c] else []) ++ unescape_aux t (isEscape && negb lastWasEscape)
@@ -161,25 +161,32 @@ Definition action_of (c : N) : action :=
             end
   end.
 
+(* The code exists in two forms, told apart by the translated tables:
+     - `case '\\': escapeMode = true; break;`  : the backslash itself is appended when it is read
+       (c_sp_escape_emits_itself = 1) and the escaped character follows bare (c_sp_escaped_prefix_for = []);
+     - `case '\\': escapeMode = true; continue;` : nothing is appended when the backslash is read, and the
+       escaped character gets a backslash of its own iff it is in c_sp_escaped_prefix_for.
+   A pattern that ends in escapeMode appends c_sp_trailing. *)
 Fixpoint tr_loop (s : list N) (escapeMode : bool) : list N :=
   match s with
-  | [] => if escapeMode then [ch_bsl] else []
+  | [] => if escapeMode then c_sp_trailing else []
   | c :: t =>
-      if escapeMode then c :: tr_loop t false
+      if escapeMode then (if mem c c_sp_escaped_prefix_for then [ch_bsl; c] else [c]) ++ tr_loop t false
       else match action_of c with
            | ARepl d => d :: tr_loop t false
            | APrefix p => p :: c :: tr_loop t false
-           | AEscape => c :: tr_loop t true
+           | AEscape => (if c_sp_escape_emits_itself =? 1 then [c] else []) ++ tr_loop t true
            | ANone => c :: tr_loop t false
            end
   end.
 
 (* the regex string handed to regcomp for a simple pattern that is neither a range list nor a
-   raw regex; [str] is the pattern after the optional '~' *)
+   raw regex; [str] is the pattern after the optional '~'.
+   if ((str[0] == '\\')&&(str[1] == '<' ...)) str++; *)
 Definition skip_escaped_first (str : list N) : list N :=
-  match str, c_sp_skip_escape_pair with
-  | a :: b :: t, [x; y] => if (a =? x) && (b =? y) then b :: t else str
-  | _, _ => str
+  match str with
+  | a :: b :: t => if (a =? c_sp_skip_escape_first) && mem b c_sp_skip_escape_seconds then b :: t else str
+  | _ => str
   end.
 
 Definition regex_of_simple (str : list N) : list N :=
